@@ -123,7 +123,34 @@ def run(ctx):
         list(sc.EST_PREFIX) + [('stop',), ('lost', 0), ('start',), ('connok', 1), ('data', 1, M['open_ok']),
                                ('data', 1, M['keepalive']), ('sendbin', M['update_ok'])],
     ]
-    all_paths = [list(p) for (p, _, _, _) in leaves] + extra
+    # segmented delivery: the counters must follow the frames of the delivered stream whatever the TCP segmentation
+    # (a frame split over segments followed by shorter messages delivered on their own, byte-at-a-time, random cuts);
+    # every prefix of such a trace is audited, not only its end
+    from props.c04 import cuts_of
+    seg_paths = []
+    streams = [M['update_ok'] + M['keepalive'] + M['keepalive'],
+               M['keepalive'] + M['update_ok'] + M['route_refresh'] + M['keepalive'] + M['update_bad'] + M['keepalive'],
+               M['route_refresh'] + M['update_ok'] + M['notif_cease']]
+    for stream in streams:
+        cs = cuts_of(stream, ctx.rng, ctx.thorough)
+        if not ctx.thorough:
+            cs = cs[:1] + cs[1:60:3] + cs[-4:]
+        for chunks in cs:
+            whole = list(sc.EST_PREFIX) + [('data', 0, c) for c in chunks if c]
+            # the frame split in two, then each following message in a segment of its own
+            seg_paths.append(whole)
+        first = len(M['update_ok'])
+        for cut in (1, 18, 19, 20, first // 2, first - 1):
+            if stream.startswith(M['update_ok']):
+                rest = stream[first:]
+                tail = [rest[i:i + 19] for i in range(0, len(rest), 19)]
+                seg_paths.append(list(sc.EST_PREFIX) + [('data', 0, stream[:cut]), ('data', 0, stream[cut:first])] +
+                                 [('data', 0, t) for t in tail])
+    prefixes = []
+    for p in seg_paths:
+        k0 = len(sc.EST_PREFIX)
+        prefixes += [p[:k] for k in range(k0 + 1, len(p) + 1)]
+    all_paths = [list(p) for (p, _, _, _) in leaves] + extra + prefixes
     for path in all_paths:
         d, delivered = run_one(kw, path)
         n += 1
@@ -141,7 +168,7 @@ def run(ctx):
     runs, mism2 = sc.compare_traces(ctx, [(kw, p) for p in extra])
     return {'evaluations': n + len(extra), 'distinct': stats['abstract_states'],
             'rule': 'every path of the breadth-first exploration (depth %d, de-duplicated on the abstract state) over the '
-                    'alphabet incl. error paths, plus traces with REST sends; after each path every counter of every '
+                    'alphabet incl. error paths, plus traces with REST sends and segmented deliveries (every prefix); after each path every counter of every '
                     'connection is compared with a count over the simulated transport write log and the delivered frames '
                     '(independent deframer); distinct = abstract states reached' % depth,
             'samples': samples, 'mismatches': mism + mism2, 'violations': viol, 'extra': stats}
